@@ -3170,6 +3170,8 @@ pub mod verif {
         pub call0: core::cell::Cell<MoovCall>,
         pub call1: core::cell::Cell<MoovCall>,
         pub stub_len: usize,
+        /// extra length of the stand-in's result when metadata is passed (stands for udta)
+        pub meta_extra: usize,
     }
     impl MoovCarrier {
         pub fn new(width: u32, height: u32, stub_len: usize) -> Self {
@@ -3179,6 +3181,7 @@ pub mod verif {
                 call0: core::cell::Cell::new(MoovCall::EMPTY),
                 call1: core::cell::Cell::new(MoovCall::EMPTY),
                 stub_len,
+                meta_extra: 0,
             }
         }
     }
@@ -3238,7 +3241,7 @@ pub mod verif {
                 c.call1.set(call);
             }
             c.calls.set(c.calls.get() + 1);
-            len = c.stub_len;
+            len = c.stub_len + if metadata.is_some() { c.meta_extra } else { 0 };
         }
         let mut v = vec![0u8; len];
         if len > 0 {
